@@ -2,6 +2,7 @@ package rules
 
 import (
 	"fmt"
+	"go/token"
 	"go/types"
 	"strings"
 
@@ -25,6 +26,7 @@ func runC18(c *core.Ctx) {
 	pkg := "internal/maplike/skiplist"
 	c.Doc("compare-normal-form", 4, "advance iff node key < key; match iff equal; keys only through Compare")
 	c.Doc("level-loops", 4, "traversals go down to level 0 inclusive; Put splices 0..rank-1; Remove covers the node's levels")
+	c.Doc("traversal-effects", 2, "advancing moves node and next along the level; stopping keeps them and (insertion path) records the node; the result is next[0]")
 	c.Doc("splice-order", 1, "node.fingers[l] read before path[l].fingers[l] := node")
 	c.Doc("unlink", 1, "overwrite only where path[l].fingers[l] == v, with v.fingers[l] or nil")
 	c.Doc("results", 3, "Get/Remove/Put results and effects under equal / not equal")
@@ -197,11 +199,16 @@ func runC18(c *core.Ctx) {
 			okCmp = false
 			c.Fail("compare-normal-form", name, fn.Pos(), "the traversal never compares keys")
 		}
+		// advance effects, nil guard, path recording and the result
+		okAdv := travEffects(c, name, fn, an, outer, lvl)
 		if okCmp {
 			c.Ok("compare-normal-form", name, fn.Pos(), "advance iff node key < key")
 		}
 		if okLvl {
 			c.Ok("level-loops", name, fn.Pos(), "level-- down to 0 inclusive")
+		}
+		if okAdv {
+			c.Ok("traversal-effects", name, fn.Pos(), "advance: node := node.fingers[l], next := node.fingers; nil finger or not-smaller: go down recording the node; result next[0]")
 		}
 	}
 	// siblings agree
@@ -410,6 +417,12 @@ func runC18(c *core.Ctx) {
 					continue
 				}
 				if len(st) == 0 {
+					// no store: allowed only where the path does not point to the removed node
+					for _, b := range p.Events(ir.KBranch) {
+						if b.Atom.Op == "bin" && b.Atom.Aux == "==" && node != nil && (ir.Same(b.Atom.Args[0], node) || ir.Same(b.Atom.Args[1], node)) && b.Pol {
+							okU, whyU = false, "a level on which the path points to the removed node is not unlinked: the node stays reachable on that level"
+						}
+					}
 					continue
 				}
 				if len(st) != 1 || node == nil {
@@ -477,4 +490,114 @@ func plusConstAny(v, outerSym *ir.Term, an *ir.Analysis, h *ssa.BasicBlock, lvl 
 		}
 	}
 	return 0, false
+}
+
+// travEffects: what a traversal does besides comparing.
+func travEffects(c *core.Ctx, name string, fn *ssa.Function, an *ir.Analysis, outer *ssa.BasicBlock, lvl *ssa.Phi) bool {
+	ok := true
+	fail := func(pos tokenPosT, format string, a ...any) {
+		ok = false
+		c.Fail("traversal-effects", name, pos, format, a...)
+	}
+	isNodePtr := func(t types.Type) bool { _, p := t.(*types.Pointer); return p }
+	isSlice := func(t types.Type) bool { _, sl := t.Underlying().(*types.Slice); return sl }
+	recordsPath := fn.Signature.Results().Len() == 2
+	for _, h := range an.Headers {
+		var nodePhi, nextPhi *ssa.Phi
+		for _, in := range h.Instrs {
+			if phi, isPhi := in.(*ssa.Phi); isPhi {
+				switch {
+				case isNodePtr(phi.Type()):
+					nodePhi = phi
+				case isSlice(phi.Type()):
+					nextPhi = phi
+				}
+			}
+		}
+		if nodePhi == nil || nextPhi == nil {
+			fail(fn.Pos(), "loop without node / next cursors")
+			continue
+		}
+		nodeS, nextS := an.Start[h].Reg(nodePhi), an.Start[h].Reg(nextPhi)
+		lv := an.Start[h].Reg(lvl)
+		if lv == nil {
+			lv = an.Start[outer].Reg(lvl)
+		}
+		for _, p := range an.Segs[h] {
+			if p.Exit == ir.ExitReturn {
+				// result: next[0] (and the recorded path)
+				r := p.Results[0]
+				good := r.Op == "load" && r.Args[0].Op == "iaddr" && ir.Same(r.Args[0].Args[0], nextS)
+				if good {
+					k, isK := r.Args[0].Args[1].IntConst()
+					good = isK && k == 0
+				}
+				if !good {
+					fail(lastPos(p), "the traversal returns %s, expected the level-0 successor next[0]", short(r))
+				}
+				continue
+			}
+			if h == outer && p.To != outer {
+				// entering the inner loop: cursors unchanged
+				continue
+			}
+			// inner loop paths (or a single-loop traversal)
+			var cmp *ir.Step
+			for _, st := range p.Events(ir.KCall) {
+				if st.Method != nil && st.Method.Name() == "Compare" {
+					cmp = st
+				}
+			}
+			finger := &ir.Term{Op: "load", Aux: "0", Args: []*ir.Term{{Op: "iaddr", Args: []*ir.Term{nextS, lv}}}}
+			isNil := polarity(p, &ir.Term{Op: "bin", Aux: "==", Args: sorted2(ir.Nil, finger)})
+			advanced := p.To == h && h != outer
+			stores := nonLocalStores(p)
+			if cmp != nil && isNil >= 0 {
+				fail(cmp.Pos(), "the next node's key is compared without having established that next[level] is not nil")
+			}
+			if cmp == nil && isNil <= 0 && h != outer {
+				fail(lastPos(p), "a pass of the advance loop neither finds next[level] == nil nor compares its key")
+			}
+			if advanced {
+				wantNode := &ir.Term{Op: "load", Aux: "0", Args: []*ir.Term{{Op: "iaddr", Args: []*ir.Term{{Op: "load", Aux: "0", Args: []*ir.Term{{Op: "faddr", Aux: "fingers", Args: []*ir.Term{nodeS}}}}, lv}}}}
+				wantNext := &ir.Term{Op: "load", Aux: "0", Args: []*ir.Term{{Op: "faddr", Aux: "fingers", Args: []*ir.Term{wantNode}}}}
+				if !ir.Same(p.PhiOut[nodePhi], wantNode) || !ir.Same(p.PhiOut[nextPhi], wantNext) || len(stores) != 0 {
+					fail(lastPos(p), "advancing must set node := node.fingers[level] and next := node.fingers and nothing else; found node' = %s, next' = %s", short(p.PhiOut[nodePhi]), short(p.PhiOut[nextPhi]))
+				}
+				if isNil > 0 {
+					fail(lastPos(p), "the traversal advances over a nil finger")
+				}
+				continue
+			}
+			if h != outer && p.To == outer {
+				// going down one level: cursors kept, node recorded (insertion path)
+				op, on := p.PhiOut[phiOf(outer, nodePhi)], p.PhiOut[phiOf(outer, nextPhi)]
+				if !ir.Same(op, nodeS) || !ir.Same(on, nextS) {
+					fail(lastPos(p), "going down a level must keep node and next; found node' = %s", short(op))
+				}
+				if recordsPath {
+					good := len(stores) == 1 && stores[0].A[0].Op == "iaddr" && ir.Same(stores[0].A[0].Args[1], lv) && ir.Same(stores[0].A[1], nodeS) &&
+						stores[0].A[0].Args[0].Op == "load" && stores[0].A[0].Args[0].Args[0].Op == "faddr" && stores[0].A[0].Args[0].Args[0].Aux == "path"
+					if !good {
+						fail(lastPos(p), "going down a level must record path[level] := node exactly once (found %d stores): Put and Remove would splice at stale predecessors", len(stores))
+					}
+				} else if len(stores) != 0 {
+					fail(lastPos(p), "the read-only traversal stores")
+				}
+			}
+		}
+	}
+	return ok
+}
+
+type tokenPosT = token.Pos
+
+// phiOf: the phi of block b that has the same comment (source variable) as like.
+func phiOf(b *ssa.BasicBlock, like *ssa.Phi) *ssa.Phi {
+	for _, in := range b.Instrs {
+		if phi, ok := in.(*ssa.Phi); ok && phi.Comment == like.Comment {
+			return phi
+		}
+	}
+	return nil
 }
